@@ -472,6 +472,35 @@ fn chunks_case<W: TW>(c: &mut Case, width: usize, mode: usize, backing: Backing,
             true
         }
     });
+    // the views consumed through the skipping adaptors of Iterator: the same views as a plain walk
+    if matches!(r, Ok(true)) && width > 0 {
+        let plain: Vec<usize> = read_back.iter().map(|x| x.len()).collect();
+        let step = 1 + c.rng().random_range(0..3usize);
+        let k = c.rng().random_range(0..3usize);
+        let got = catch(|| {
+            let stepped: Vec<usize> = b.try_chunks_mut(cs).map(|it| it.step_by(step).take(len + 70).map(|ch| BitFieldSliceCore::<W>::len(&ch)).collect()).unwrap_or_default();
+            let skipped: Vec<usize> = b.try_chunks_mut(cs).map(|it| it.skip(k).take(len + 70).map(|ch| BitFieldSliceCore::<W>::len(&ch)).collect()).unwrap_or_default();
+            let nth_then_rest: Vec<usize> = b
+                .try_chunks_mut(cs)
+                .map(|mut it| {
+                    let mut v: Vec<usize> = it.nth(k).map(|ch| BitFieldSliceCore::<W>::len(&ch)).into_iter().collect();
+                    v.extend(it.take(len + 70).map(|ch| BitFieldSliceCore::<W>::len(&ch)));
+                    v
+                })
+                .unwrap_or_default();
+            (stepped, skipped, nth_then_rest)
+        });
+        match got {
+            Ok((stepped, skipped, nth_then_rest)) => {
+                let want_step: Vec<usize> = plain.iter().copied().step_by(step).collect();
+                let want_skip: Vec<usize> = plain.iter().copied().skip(k).collect();
+                c.check("try_chunks_mut", stepped == want_step, || format!("chunk views through step_by({}) have lengths {:?}, a plain walk stepped by hand {:?}; {}", step, stepped, want_step, desc));
+                c.check("try_chunks_mut", skipped == want_skip, || format!("chunk views through skip({}) have lengths {:?}, expected {:?}; {}", k, skipped, want_skip, desc));
+                c.check("try_chunks_mut", nth_then_rest == want_skip, || format!("chunk views through nth({}) and then next() have lengths {:?}, expected {:?}; {}", k, nth_then_rest, want_skip, desc));
+            }
+            Err(msg) => c.fail("try_chunks_mut", "panic", &msg, &format!("walking the chunk views with step_by/skip/nth panicked; {}", desc)),
+        }
+    }
     if let Some(msg) = &apply_panic {
         c.fail("chunk_apply_in_place", "panic", msg, &format!("apply_in_place on chunk {:?} panicked after {} calls of f; {}", apply_chunk, apply_calls.len(), desc));
         c.describe(|| desc.clone());
